@@ -280,6 +280,34 @@ def shrink_syntax(drv, h, expr, cnode, ns, variables, want_reject):
     return ''.join(toks).strip()
 
 
+ASTRAL = ["string-length('\U0001f600')", "string-length('a\U0001f600b')", "substring('a\U0001f600bc', 2, 1)", "substring('a\U0001f600bc', 3)", "substring-before('x\U0001f600y', 'y')",
+          "translate('a\U0001f600b', '\U0001f600', 'z')", "translate('abc', 'b', '\U00010000')", "string-length(substring('\U0001f600\U0001f600', 1, 1))",
+          "contains('\U0001f600', substring('\U0001f600', 1, 1))", "string-length(concat('\U00010000', '\U0010ffff'))", "substring('\U00010000x', 2)", "string-length(normalize-space(' \U0001f600 '))"]
+
+
+def astral_probe(ctx, idx, res):
+    """XPath 1.0 counts characters (XML Char = code point); a supplementary character is one character"""
+    drv = ctx.drv(FLAVOUR)
+    expr = ASTRAL[idx % len(ASTRAL)]
+    h = drv.call(cmd='xdoc', xml='<d/>', xerces=0)['doc'].decode()
+    try:
+        doc = refxml.parse('<d/>')
+        cnode = doc
+        ref = ref_eval(doc, expr, cnode, [cnode], {}, {})
+        rep = C.call_xpath(drv, h, expr, '/', ['/'], {}, {}, 'generic')
+        res.evals = 1
+        res.count('astral_probes')
+        bad = C.compare_generic(rep, ref)
+        if bad:
+            fn = expr.split('(')[0]
+            res.viol('astral|%s' % fn, '%s: %s; XPath counts characters (code points), a supplementary character is one' % (expr, bad[1]), {'expression': expr})
+        else:
+            res.count('astral_agree')
+    finally:
+        drv.call(cmd='xdocdel', doc=h)
+    res.sig = ('astral', expr)
+
+
 def main():
     chk = Check('C02')
     chk.rule = ('typed random XPath expressions (13 axes, node tests, positional and boolean predicates, unions, filters, core functions, '
@@ -288,10 +316,11 @@ def main():
                 'context); non-trivial = expression longer than 12 chars or with a predicate/function; distinct = distinct skeleton '
                 '(literals, numbers and variable names abstracted).')
     chk.assumptions = ['refxpath is the reference; dynamic errors of the reference are skipped', 'namespace-axis results are compared by size only',
-                       'string-length/substring count UTF-16 units = characters because generated text is BMP only']
+                       'generated text is BMP only; supplementary characters in the string functions are looked at by a separate probe (listed finding)']
     chk.ensure(FLAVOUR, 'xvdrv')
     n = 500 if chk.tier == 'quick' else 25000
     chk.run_cases('c02', 'case', range(n))
+    chk.run_cases('c02', 'astral_probe', range(len(ASTRAL)))
     chk.finish(min_nontrivial=200, required_stats=('valid_evaluated', 'invalid_rejected'))
 
 
